@@ -13,7 +13,10 @@ use std::path::{Path, PathBuf};
 use std::sync::Arc;
 
 pub const STACK_SIZE: usize = 2 * 1024 * 1024; // what std gives a worker spawned without stack_size
-pub const CHILD_WALL_CAP_MS: i32 = 20_000;
+/// a run is capped by the CPU time of its child (independent of how busy the machine is); the
+/// wall-clock cap is only a backstop for a child that blocks without using the CPU
+pub const CHILD_CPU_CAP_S: u64 = 30;
+pub const CHILD_WALL_CAP_MS: i32 = 240_000;
 /// pipe to the parent, for the few places that have to give up from deep inside the world
 pub static RESULT_FD: std::sync::atomic::AtomicI32 = std::sync::atomic::AtomicI32::new(-1);
 
@@ -124,6 +127,8 @@ pub fn run_one(ctx: &mut RunCtx, sc: &Scenario) -> Outcome {
     unsafe { libc::waitpid(pid, &mut status, 0) };
     let mut out = if timed_out {
         Outcome { harness_error: Some("child exceeded the wall-clock cap".into()), end: "wallclock".into(), ..Default::default() }
+    } else if libc::WIFSIGNALED(status) && libc::WTERMSIG(status) == libc::SIGXCPU {
+        Outcome { harness_error: Some(format!("child exceeded the CPU-time cap of {} s", CHILD_CPU_CAP_S)), end: "cpu_cap".into(), ..Default::default() }
     } else if libc::WIFSIGNALED(status) {
         let sig = libc::WTERMSIG(status);
         oracle::crash_outcome(sc, sig, &data)
@@ -165,6 +170,10 @@ fn classify_abort(panics: &[PanicRec]) -> (End, Option<String>) {
 }
 
 fn prepare_child(sc: &Scenario, root: &Path, wfd: i32) {
+    unsafe {
+        let rl = libc::rlimit { rlim_cur: CHILD_CPU_CAP_S, rlim_max: CHILD_CPU_CAP_S + 2 };
+        libc::setrlimit(libc::RLIMIT_CPU, &rl);
+    }
     unsafe {
         // the code under test prints a lot; stdout/stderr must stay open but go nowhere
         let devnull = libc::open(b"/dev/null\0".as_ptr() as *const libc::c_char, libc::O_WRONLY);
